@@ -194,6 +194,10 @@ func genClientCase(r *hx.Rand) []string {
 			}
 		}
 	}
+	if r.Chance(1, 60) {
+		script = append(script, fmt.Sprintf("bigput %d %s", r.PickInt(256, 512, 1024),
+			[]string{"reject7", "reject8", "reject14", "accept", "accept", "full"}[r.Intn(6)]))
+	}
 	if r.Chance(1, 40) {
 		if r.Chance(1, 2) {
 			script = append(script, fmt.Sprintf("bigget %d %d", r.PickInt(512, 768, 1024), r.Range(1, 6)))
